@@ -13,6 +13,8 @@ G1_EXCEPTIONS = {
     # (caller key, callee name, formal): reason
     ("_decoding.py::TokenSequenceConstraint.check", "fill_after_eos", "tokens"):
         "`value` is torch.distributions.Constraint's name for the sequence being checked",
+    ("_decoding.py::SequentialLanguageModelDistribution.log_prob", "fill_after_eos", "tokens"):
+        "`value` is torch.distributions.Distribution.log_prob's name for the token sequences being scored",
 }
 # callee formals that are single letters: reviewed alias table (formal -> caller-side name)
 G1_FORMAL_ALIASES = {
